@@ -31,7 +31,12 @@ RULE = ("tx_sign: 1-3 accounts (deterministic-chain with small gaps, or single-a
         "plain P2PKH, claim-name+P2PKH, update+P2PKH, support+P2PKH, support-with-data+P2PKH with payloads of 0..1200 "
         "bytes (push-size boundaries 75/76/255/256 and script length 252/253 included) paid to generated addresses "
         "(chain, n) of the accounts; 1..4 generated outputs; tx version/locktime/sequence mostly default, sometimes "
-        "generated; signed through Transaction.sign(accounts). non-trivial = >=2 inputs with >=2 distinct keys. "
+        "generated; signed through Transaction.sign(accounts). Every 4th case also spends 1-2 pay-to-script-hash CLTV "
+        "time locks (redeem script built by the reference, key from outside the wallet) through Input.spend_time_lock "
+        "+ sign(accounts, {address: key}) as jsonrpc_account_deposit does, alone or between the wallet inputs; those "
+        "inputs must carry <sig> <pubkey> <redeem script> with HASH160(redeem) = the spent script hash, HASH160(pubkey) "
+        "= the hash inside the redeem script, and a signature valid for the digest whose scriptCode is the redeem "
+        "script. non-trivial = >=2 inputs with >=2 distinct keys, or a time-lock spend. "
         "channel: channel claim (name/update script, position 0..2 in its tx, generated metadata, key m/2/n of a "
         "generated seed) signs a stream / repost / collection / empty claim or a support (claim-name or update script, "
         "output position 0..2, 1..3 inputs) via Output.sign; then single-bit flips of the raw transaction in the "
@@ -277,7 +282,19 @@ def tx_case(tier):
         inputs = draw(st.lists(spent_strategy(n_acc), min_size=n_in, max_size=n_in))
         outputs = draw(st.lists(new_output_strategy(), min_size=1, max_size=4))
         special = draw(st.integers(0, 5)) == 0
-        return {"accounts": accounts, "inputs": inputs, "outputs": outputs,
+        timelock = None
+        if draw(st.integers(0, 3)) == 0:
+            # jsonrpc_account_deposit: spend a pay-to-script-hash CLTV time lock with a key from outside the wallet
+            # (Input.spend_time_lock + sign(accounts, {address: key})), alone or next to ordinary wallet inputs
+            timelock = {"secret": draw(st.binary(min_size=32, max_size=32).filter(
+                            lambda b: 0 < int.from_bytes(b, "big") < EC.N)).hex(),
+                        "height": draw(st.one_of(st.integers(17, 499999999), st.sampled_from(
+                            [17, 127, 128, 255, 256, 32767, 32768, 65535, 65536, 8388607, 8388608, 499999999]))),
+                        "amount": draw(st.integers(1, 10 ** 12)), "pos": draw(st.integers(0, 3)),
+                        "at": draw(st.integers(0, 60)), "copies": draw(st.sampled_from([1, 1, 1, 2]))}
+            if draw(st.integers(0, 2)) == 0:
+                inputs = []
+        return {"accounts": accounts, "inputs": inputs, "outputs": outputs, "timelock": timelock,
                 # what the daemon's publish / update flows do between create() (which has read sizes) and sign():
                 # an output's script is regenerated in place (Output.sign by a channel, updated claim payload)
                 "reader_during_sign": draw(st.sampled_from([False, False, True])),
@@ -339,6 +356,7 @@ async def _sign_flow(case):
             accounts.append(account)
         funding_raws = []
         inputs = []
+        layout = []
         dummy = Transaction().add_outputs([Output.pay_pubkey_hash(1000, b"\x11" * 20)]).outputs[0]
         for i, spec in enumerate(case["inputs"]):
             h160 = _owner_node(case, spec).identifier
@@ -349,8 +367,30 @@ async def _sign_flow(case):
             txi = Input.spend(txo)
             txi.sequence = spec["sequence"]
             inputs.append(txi)
+            layout.append(("std", i))
         outputs = [_make_output(lb, o, bytes.fromhex(o["h160"])) for o in case["outputs"]]
-        tx = Transaction(version=case["version"], locktime=case["locktime"]).add_inputs(inputs).add_outputs(outputs)
+        locktime = case["locktime"]
+        extra_keys = None
+        tl = case.get("timelock")
+        tl_info = []
+        if tl:
+            secret = bytes.fromhex(tl["secret"])
+            pk = lb["PrivateKey"].from_bytes(ledger, secret)
+            extra_keys = {pk.address: pk}
+            pub33 = EC.pubkey_of(int.from_bytes(secret, "big"))
+            for c in range(tl["copies"]):
+                # the redeem script is handed over by whoever locked the funds: built by the reference, as bytes
+                redeem = SH.timelock_redeem_script(tl["height"] + c, SH.hash160(pub33))
+                txo = Output.pay_script_hash(tl["amount"], SH.hash160(redeem))
+                fillers = [Output.pay_pubkey_hash(9 + k, bytes([k + 7]) * 20) for k in range(tl["pos"])]
+                funding = Transaction(locktime=1000 + c).add_inputs([Input.spend(dummy)]).add_outputs(fillers + [txo])
+                txi = Input.spend_time_lock(txo, redeem)
+                txi.sequence = 0xFFFFFFFE            # as Transaction.spend_time_lock does
+                at = min(tl["at"], len(inputs))
+                inputs.insert(at, txi)
+                layout.insert(at, ("tl", funding.raw.hex(), redeem.hex(), pub33.hex()))
+            locktime = tl["height"] + tl["copies"] - 1
+        tx = Transaction(version=case["version"], locktime=locktime).add_inputs(inputs).add_outputs(outputs)
         _ = tx.size, tx.id         # Transaction.create() looks at sizes / ids before signing: caches are warm
         edit = case.get("post_read_edit")
         if edit:
@@ -375,13 +415,13 @@ async def _sign_flow(case):
                     await asyncio.sleep(0)
             rt = asyncio.ensure_future(reader())
             try:
-                await tx.sign(accounts)
+                await tx.sign(accounts, extra_keys)
             finally:
                 state["stop"] = True
                 await rt
         else:
-            await tx.sign(accounts)
-        return tx.raw, funding_raws
+            await tx.sign(accounts, extra_keys)
+        return tx.raw, funding_raws, layout
     finally:
         await ledger.db.close()
 
@@ -389,44 +429,60 @@ async def _sign_flow(case):
 def run_tx(case):
     from vlib import aio
     out = Out()
-    raw, funding_raws = aio.run(_sign_flow(case))
+    raw, funding_raws, layout = aio.run(_sign_flow(case))
     try:
         tx = SH.parse_tx(raw)
     except SH.TxParseError as e:
         out.violate("signed-tx-unparsable", "%r raw=%s" % (e, raw.hex()[:200]))
         return out
-    n = len(case["inputs"])
+    n = len(layout)
     out.label("inputs_%s" % (n if n <= 8 else "9-20" if n <= 20 else "21-60"), "accounts_%d" % len(case["accounts"]))
     if not out.check(len(tx.inputs) == n, "signed-tx-input-count", "%d vs %d" % (len(tx.inputs), n)):
         return out
     if case["version"] != 1 or case["locktime"] != 0:
         out.label("nondefault_version_or_locktime")
+    if case.get("timelock"):
+        out.label("timelock_alone" if not case["inputs"] else "timelock_mixed")
+
+    def spent_of(i):
+        """(funding tx, position, kind) of what input i is meant to spend"""
+        if layout[i][0] == "std":
+            spec = case["inputs"][layout[i][1]]
+            return SH.parse_tx(funding_raws[layout[i][1]]), spec["pos"], spec["kind"]
+        return SH.parse_tx(bytes.fromhex(layout[i][1])), case["timelock"]["pos"], "timelock"
+
     keys = set()
-    for i, spec in enumerate(case["inputs"]):
-        ftx = SH.parse_tx(funding_raws[i])
-        spent = ftx.outputs[spec["pos"]].script
-        kind = spec["kind"]
+    for i in range(n):
+        ftx, pos, kind = spent_of(i)
+        spent = ftx.outputs[pos].script
         out.label("spent_" + kind)
         if len(spent) >= 253:
             out.label("scriptcode_ge_253")
-        if spec["sequence"] != 0xFFFFFFFF:
-            out.label("nondefault_sequence")
         txin = tx.inputs[i]
         # the input must point at the output it is meant to spend (that defines "the spent output"); version,
         # locktime and sequence as serialised are simply part of "that transaction" (their fidelity is C05's business)
-        if not out.check(txin.prev_hash == ftx.txid_hash and txin.prev_index == spec["pos"],
+        if not out.check(txin.prev_hash == ftx.txid_hash and txin.prev_index == pos,
                          "input:outpoint-differs:" + kind,
                          "input %d: %s:%d" % (i, txin.prev_hash.hex(), txin.prev_index)):
             continue
-        owner = _owner_node(case, spec)
-        ok, why, info = SH.verify_input(tx, i, spent)
+        if kind == "timelock":
+            redeem, owner_pub = bytes.fromhex(layout[i][2]), bytes.fromhex(layout[i][3])
+            ok, why, info = SH.verify_p2sh_timelock_input(tx, i, spent)
+            if ok and info["redeem"] != redeem:
+                ok, why = False, "redeem-script-altered"
+        else:
+            spec = case["inputs"][layout[i][1]]
+            if spec["sequence"] != 0xFFFFFFFF:
+                out.label("nondefault_sequence")
+            owner_pub = _owner_node(case, spec).pub
+            ok, why, info = SH.verify_input(tx, i, spent)
         if not ok:
             out.violate("input:%s:%s" % (why, kind), "input %d of %d, spent script %s, scriptSig %s, digest %s" % (
                 i, n, spent.hex()[:120], txin.script.hex(), info.get("digest", b"").hex()))
             continue
         pub = SH.parse_pushes(txin.script)[1][1]
         keys.add(pub)
-        out.check(pub == owner.pub, "input:pubkey-not-the-owner-key:" + kind, "input %d" % i)
+        out.check(pub == owner_pub, "input:pubkey-not-the-owner-key:" + kind, "input %d" % i)
         # second opinion on the same digest
         r, s = EC.parse_der_signature(SH.parse_pushes(txin.script)[0][1][:-1])
         if not ref_verify(pub, info["digest"], r, s):
@@ -437,11 +493,12 @@ def run_tx(case):
         # sensitivity of the oracle itself: the signature must not verify for a neighbouring input's digest
         if n > 1:
             j = (i + 1) % n
-            other_spent = SH.parse_tx(funding_raws[j]).outputs[case["inputs"][j]["pos"]].script
-            if EC.verify_rs(EC.parse_point(pub), SH.sighash_all(tx, j, other_spent), r, s):
+            fj, pj, kj = spent_of(j)
+            code_j = bytes.fromhex(layout[j][2]) if kj == "timelock" else fj.outputs[pj].script
+            if EC.verify_rs(EC.parse_point(pub), SH.sighash_all(tx, j, code_j), r, s):
                 out.violate("input:signature-valid-for-other-input", "input %d's signature verifies for input %d" % (i, j))
     out.label("distinct_keys_%s" % (len(keys) if len(keys) <= 3 else "4+"))
-    out.nontrivial = n >= 2 and len(keys) >= 2
+    out.nontrivial = (n >= 2 and len(keys) >= 2) or bool(case.get("timelock"))
     return out
 
 
@@ -1017,7 +1074,8 @@ def run_legacy(case):
 PARTS = [
     Part("tx_sign", tx_case, run_tx, 110, 600, quick_shards=3, thorough_shards=16,
          essential=("spent_p2pkh", "spent_claim", "spent_update", "spent_support", "spent_support_data",
-                    "scriptcode_ge_253", "accounts_3", "inputs_8", "inputs_1", "distinct_keys_3")),
+                    "scriptcode_ge_253", "accounts_3", "inputs_8", "inputs_1", "distinct_keys_3", "timelock_alone",
+                    "timelock_mixed")),
     Part("channel", lambda tier: channel_case(), run_channel, 140, 1200, quick_shards=3, thorough_shards=16,
          essential=("signed_stream", "signed_repost", "signed_collection", "signed_support", "signed_empty",
                     "script_update", "channel_update", "mut_message", "mut_signature", "mut_channel_hash",
